@@ -292,7 +292,7 @@ def gen_level(G, n, tier, scale=1.0, heavy=True):
         # additive, multiplicative, fixes the base field: covered by the semilinear oracle; the
         # p-th power itself (balanced square-and-multiply) on a few, Tower!TFrb verbatim on fewer
         if heavy:
-            for j in ((1, 2, 3) if unit <= 300 else (1,)):
+            for j in ((1, 2) if unit <= 300 else (1,)):
                 G.line(op("frb"), 0, G.rtok(n), j, 1)
             if unit <= 60 or (not quick and unit <= 300):
                 G.line(op("frb"), 0, G.rtok(n), 1, 2)
@@ -354,18 +354,18 @@ def gen_level(G, n, tier, scale=1.0, heavy=True):
                 G.line(op("exp"), k % 2, a, hx(x))
                 k += 1
         # wide exponents: cost 1.5 * bits products each
-        nb = cnt(5 if unit <= 60 else (3 if unit <= 300 else 1), 1)
-        for x in (mid + big)[:nb + 2]:
+        nb = cnt((3 if unit <= 60 else (2 if unit <= 300 else 1)) * (1 if quick else 2), 1)
+        for x in (mid[:1] + big)[:nb + 1]:
             G.line(op("exp"), 0, bases[0] if x != -p else G.nonzero(n), hx(x))
         if cyc and n != 4:
             G.line(op("exp"), 0, cyc(), hx(mid[0]))
     if has("exp_dig") and heavy:
         for a in [G.rtok(n)] + ([cyc()] if cyc else []):
-            for d in [0, 1, 2, 3, 0xffff] + ([m, rng.getrandbits(G.wbits)] if unit <= 700 else []):
+            for d in [0, 1, 2, 3, 5, 0xffff] + ([m, rng.getrandbits(G.wbits)] if unit <= 60 or not quick else []):
                 G.line(op("exp_dig"), k % 2, a, hx(d))
                 k += 1
     if has("exp_cyc") and heavy:
-        for x in exps_small()[:7] + mid + big[:cnt(3 if unit <= 300 else 1, 1)]:
+        for x in exps_small()[:7] + mid + big[:cnt((2 if unit <= 300 else 1) * (1 if quick else 2), 1)]:
             G.line(op("exp_cyc"), k % 2, cyc(), hx(x))
             k += 1
         G.line(op("exp_cyc"), 0, C[1], hx(mid[0]))
@@ -378,7 +378,7 @@ def gen_level(G, n, tier, scale=1.0, heavy=True):
         G.line(op("exp_cyc_sim"), 0, gt(), hx(-7), gt(), hx(-5))
         G.tail.append(G.sel + " " + " ".join([op("exp_cyc_sim"), "0", gt(), hx(7), gt(), hx(-5)]))
         G.tail.append(G.sel + " " + " ".join([op("exp_cyc_sim"), "0", gt(), hx(-mid[0]), gt(), hx(11)]))
-        if unit <= 300:
+        if unit <= 300 and not quick:
             G.line(op("exp_cyc_sim"), 0, gt(), hx(rng.getrandbits(fb)), gt(), hx(rng.getrandbits(fb - 3)))
         if gt is not cyc:
             # cyclotomic, but not of order r (meets a recorded finding: last)
@@ -391,10 +391,10 @@ def gen_level(G, n, tier, scale=1.0, heavy=True):
         G.line(op("exp_cyc_sps"), 0, C[1], 0, 3, 0, 3, 9)
     # ---------------------------------------------------------------- squares and roots
     if has("srt") and heavy:
-        nsq = cnt({2: 30, 3: 16, 4: 8, 8: 3, 16: 1}.get(n, 1), 1)
+        nsq = cnt({2: 12, 3: 6, 4: 3, 8: 1, 16: 1}.get(n, 1) * (1 if quick else 4), 1)
         ins = [C[0], C[1], C[2], C[3]] + ["s:" + G.nonzero(n) for _ in range(nsq)] + [G.rtok(n) for _ in range(nsq)]
         if unit <= 60:
-            ins += C[7:]
+            ins += C[7:] if not quick else rng.sample(C[7:], 8)
         for a in ins:
             G.line(op("srt"), k % 2, a)
             k += 1
